@@ -382,3 +382,73 @@ class Battery:
         if 'len-exact' in self.caps:
             check('len', len(st), (len(oids),))
         return n
+
+
+# --------------------------------------------------------------------------------------
+# model-free observation (differential / metamorphic oracles)
+
+def scan_universe(st):
+    """(oids, tids) as reported by the storage's own iterator"""
+    oids, tids = set(), []
+    it = st.iterator()
+    try:
+        for t in it:
+            tids.append(t.tid)
+            for r in t:
+                oids.add(r.oid)
+    finally:
+        c = getattr(it, 'close', None)
+        if c:
+            c()
+    return sorted(oids), tids
+
+
+def observe(st, oids, tids, caps, skip=()):
+    """dict query -> normal-form answer, for a fixed universe"""
+    obs = {}
+    univ = list(oids) + absent_oids(oids)
+    bounds = tid_boundaries(tids)
+    obs[('lastTransaction',)] = st.lastTransaction()
+    for oid in univ:
+        obs[('load', oid)] = q_load(st, oid)
+        obs[('getTid', oid)] = q_getTid(st, oid)
+        for t in bounds:
+            obs[('loadBefore', oid, t)] = q_loadBefore(st, oid, t)
+        if 'loadSerial' in caps:
+            for t in tids:
+                obs[('loadSerial', oid, t)] = q_loadSerial(st, oid, t)
+        if 'history' in caps:
+            obs[('history', oid)] = q_history(st, oid, len(tids) + 1)
+    if 'iterator' in caps and 'iterator' not in skip:
+        obs[('iterator',)] = q_iterator(st)
+        if tids:
+            for a in {tids[0], tids[len(tids) // 2], tids[-1]}:
+                for (s, e) in ((a, None), (None, a), (p64(u64(a) + 1), None)):
+                    obs[('iterator', s, e)] = q_iterator(st, s, e)
+    if 'undoLog' in caps:
+        obs[('undoLog',)] = q_undoLog(st, 0, -1000)
+    if 'record_iternext' in caps:
+        obs[('record_iternext',)] = q_record_iternext(st)
+    if 'len-exact' in caps:
+        obs[('len',)] = len(st)
+    return obs
+
+
+def diff_obs(a, b):
+    """first differing query between two observations (same universe), or None"""
+    for k in a:
+        if k not in b:
+            return k, a[k], '<missing>'
+        if a[k] != b[k]:
+            return k, a[k], b[k]
+    for k in b:
+        if k not in a:
+            return k, '<missing>', b[k]
+    return None
+
+
+class CorruptGuard:
+    @staticmethod
+    def errors():
+        from ZODB.FileStorage.format import CorruptedError
+        return (CorruptedError,)
